@@ -567,6 +567,22 @@ theorem op_eq_den_any_fuel {ρ : Type} (E : Env) (hE : E.lenprefixLeak = false) 
   · have h1 := Den.run_fuel_mono E fetch f g hfg r s pos (by rw [hd]; intro h; cases h; exact he rfl)
     rw [h1, hd] at h2; exact h2
 
+
+/-- **op_run_returns.**  The model's own run in the fuel-free form used for the extracted C cases (`Skel.Returns`: "run with ANY
+    sufficiently large fuel, the answer is `res`"): an answer other than `Err.fuel` at one fuel is THE fuel-free meaning of the
+    program at that rule, state and position - and by `Skel.Returns.unique` there is no other. -/
+theorem op_run_returns {ρ : Type} (E : Env) (fetch : ρ → Option (Instr ρ)) (f : Nat) (r : ρ) (s : St) (pos : Nat)
+    (hne : Op.run E fetch f r s pos ≠ .error .fuel) :
+    Skel.Returns (fun fuel => Op.run E fetch fuel r s pos) (Op.run E fetch f r s pos) :=
+  ⟨f, fun g hfg => Op.run_fuel_mono E fetch f g hfg r s pos hne⟩
+
+/-- **op_returns_of_den.**  ... and the denotation determines it: if the denotation at some fuel yields a match `(p, Δ)`, the
+    fuel-free meaning of the operational run is "match at `p` in the state `s` extended by `Δ`". -/
+theorem op_returns_of_den {ρ : Type} (E : Env) (hE : E.lenprefixLeak = false) (fetch : ρ → Option (Instr ρ)) (f : Nat) (r : ρ)
+    (s : St) (pos p : Nat) (d : Delta) (hd : Den.run E fetch f r s pos = .ok (some (p, d))) :
+    Skel.Returns (fun fuel => Op.run E fetch fuel r s pos) (.ok (some p, s.extend d)) :=
+  ⟨f, fun g hfg => (op_eq_den_any_fuel E hE fetch f g hfg r s pos).1 p d hd⟩
+
 /-- non-vacuity: `(% (<- "a"))` = [ACCUMULATE 3 0; CAPTURE 6 0; LITERAL 1 'a'] on "a": fuel 2 is too little (the answer IS
     `Err.fuel`), fuel 3 suffices (the answer is a match ending at 1), so the hypothesis of `op_run_fuel_mono` holds at f = 3 -/
 def fuelTag (r : ORes) : Nat :=
